@@ -105,6 +105,8 @@ def show(t, depth=0) -> str:
         return f"?{t[1]}"
     if tag == "comp":
         return f"{t[1]}comp({' | '.join(show(e, d) for e in t[2])} for {', '.join(show(i, d) for i in t[3])})"
+    if tag == "ucomp":
+        return "[" + ", ".join(show(v, d) + ("".join(f" if {show(c, d)}" for c in cs)) for cs, v in t[2]) + "]"
     if tag == "exc":
         return f"exc({t[1]})"
     return repr(t)
